@@ -520,7 +520,7 @@ class Ctx:
         """the PROPERTY fails on the real code at `case`.  `key` = call-site/input-class id used
         for matching against known_findings.json"""
         for f in self.known.get("findings", []):
-            if f.get("property") == self.prop and key is not None and f.get("key") == key:
+            if f.get("property") == self.prop and key is not None and (f.get("key") == key or key in f.get("keys", [])):
                 self.known_hits[f["id"]] += 1
                 self.known_samples.setdefault(f["id"], (f, case, detail))
                 return
